@@ -239,3 +239,27 @@ Qed.
 Theorem snapshot_stable_values o cs1 cs2 :
   exists later, fst (run_session o ab_init 0 (cs1 ++ cs2)) = fst (run_session o ab_init 0 cs1) ++ later.
 Proof. eexists. apply run_session_app. Qed.
+
+(* ================================================================== (a) in the form the sessions are run *)
+Lemma run_session_SC o cs : forall b b' pos tail,
+  run o b cs = Ok b' ->
+  run_session o b pos (map SC cs ++ tail) = run_session o b' (pos + length cs)%nat tail.
+Proof.
+  induction cs as [|c t IH]; intros b b' pos tail H; cbn [run map app length] in *.
+  - inversion H. now rewrite Nat.add_0_r.
+  - cbn [run_session]. destruct (ab_step o b c) as [b1 [e|]]; [discriminate|].
+    rewrite (IH b1 b' (S pos) tail H). replace (S pos + length t)%nat with (pos + S (length t))%nat by lia.
+    destruct (run_session o b' (pos + S (length t)) tail). reflexivity.
+Qed.
+
+(* a whole from_iter session followed by a snapshot: no error event, one snapshot, of the right length and value *)
+Theorem from_iter_session o vs :
+  good_opts o -> forallb no_struct vs = true ->
+  exists c, fst (run_session o ab_init 0 (map SC (encode_all vs) ++ [SSnapshot]))
+            = [EvSnap (length (encode_all vs)) (zlen vs) (Ok c)] /\ to_list c = Ok (unify vs).
+Proof.
+  intros Ho Hn. destruct (feed_values o Ho vs Hn) as (b & E & W & A & V).
+  destruct (bvals_correct b W) as (c & Es & Et). exists c.
+  rewrite (run_session_SC o _ ab_init b 0 [SSnapshot] E). cbn [run_session fst Nat.add].
+  rewrite Es, <- (bvals_len b W), V, zlen_map, Et, V, unify_no_struct by exact Hn. split; reflexivity.
+Qed.
